@@ -85,10 +85,13 @@ class Lifting(metaclass=ABCMeta):
             elif not self._active_recorded:
                 self._random_position += lifting_rate
 
-        else:
+        elif lifting_rate < 0.0:
             assert not is_active
             self._negative_lifting_rates.append(-lifting_rate)
             self._associated_identifiers.append(associated_identifier)
+        else:
+            # A unit with a vanishing derivative takes no part in the lifting.
+            assert not is_active
 
     @abstractmethod
     def get_active_identifier(self) -> Any:
